@@ -11,7 +11,7 @@ Local Open Scope Z_scope.
 Definition xNil := 0.  Definition xEOF := 1.  Definition xCancelled := 2.  Definition xWouldBlock := 3.
 Definition xEPERM := 4.  Definition xEBADF := 5.  Definition xReset := 6.  Definition xEPIPE := 7.  Definition xTimeout := 8.
 
-Inductive okind : Type := KSock | KPipeR | KPipeW | KReg.
+Inductive okind : Type := KSock | KPipeR | KPipeW | KReg | KLsn.    (* KLsn: listener; e_rq counts queued connections *)
 
 Record opst : Type := mkop { op_cb : Z; op_all : bool; op_len : Z; op_sofar : Z }.
 
@@ -105,6 +105,11 @@ Inductive sysres : Type := SGot (n : Z) | SEof | SWouldBlock | SFail (e : Z).
 
 Definition sys_read (o : obj) (want : Z) : obj * sysres :=
   if o_closed o || (match o_kind o with KPipeW => true | _ => false end) then (o, SFail xEBADF)
+  else if (match o_kind o with KLsn => true | _ => false end) then
+    (* accept(2): one queued connection per call *)
+    if 0 <? e_rq o then
+      (mkobj (o_kind o) (o_closed o) (o_evR o) (o_evW o) (o_rd o) (o_wr o) (o_reg o) (e_rq o - 1) (e_reof o) (e_rst o) (e_wdead o), SGot 1)
+    else (o, SWouldBlock)
   else if 0 <? e_rq o then
     (* buffered data is delivered first, also after the peer closed or reset the connection *)
     let n := Z.min want (e_rq o) in
@@ -196,7 +201,15 @@ Definition on_event (s : loop) (i : Z) (o : obj) (write : bool) (err : Z) : loop
   | None => (set_obj s i o1, [])
   | Some p =>
       if negb (err =? xNil) then (set_obj s i o1, [IInvoke (op_cb p) err (op_sofar p) false])
-      else io_now 64 (set_obj s i o1) i write p false
+      else
+        match o_kind o with
+        | KLsn =>
+            (* listen_conn.go handleAsyncAccept: one accept, its result goes to the callback (no re-arm on would-block) *)
+            let '(o2, r) := sys_read o1 0 in
+            (set_obj s i o2, [IInvoke (op_cb p) (match r with SGot _ => xNil | SEof => xEOF | SWouldBlock => xWouldBlock | SFail e => e end)
+                                (match r with SGot n => n | _ => 0 end) false])
+        | _ => io_now 64 (set_obj s i o1) i write p false
+        end
   end.
 
 Definition timer_unset (s : loop) (i : Z) (t : tmr) : loop * tmr :=
